@@ -277,6 +277,10 @@ class Parser:
 
         for num, self.line in enumerate(lines):
             self.process_line(num != len(lines) - 1)
+        if self.set_line:
+            # the input ends with a SET line (no line behind it that would have flushed it)
+            self.process_set()
+            self.set_line = None
         if self.statement:
             # the last line started a new statement (the one before it had no ';'):
             # it is still pending - parse it as well instead of keeping it for the next run()
